@@ -21,8 +21,8 @@ RULE = ("two real dilated wormholes with dilate(ping_interval=x), x in 0.5..60 s
         "virtual timestamps. Non-trivial = at least 3 answered pings (responsive) or a blackhole that "
         "took effect on a CONNECTED pair; distinct = (x, behaviour, t0, latencies) tuples.")
 ASSUMPTIONS = ["Noise stand-in", "virtual time: all deadlines are decided on the simulated clock"]
-FLOORS = {"quick": {"pongs": 3000, "silent_cases_dropped": 60, "responsive_intervals": 3000, "stops_with_lingering_connection": 6},
-          "thorough": {"pongs": 100000, "silent_cases_dropped": 2500, "responsive_intervals": 110000, "stops_with_lingering_connection": 300}}
+FLOORS = {"quick": {"pongs": 3000, "silent_cases_dropped": 60, "responsive_intervals": 3000, "stops_with_lingering_connection": 6, "neighbour_connection_losses": 200},
+          "thorough": {"pongs": 100000, "silent_cases_dropped": 2500, "responsive_intervals": 110000, "stops_with_lingering_connection": 300, "neighbour_connection_losses": 5000}}
 
 class Bulk:
     """push producer that keeps a subchannel's sender saturated (writes whenever it is allowed to)"""
@@ -114,6 +114,10 @@ def cases(tier, seed, prep=None):
     # up its interval timer is served late; the peer still answers every ping at once and must not be dropped
     for i in range(30 if tier == "quick" else 800):
         out.append({"seed": seed * 1000003 + 1670000 + i, "kind": "responsive-suspend", "sleep": [0.6, 0.95, 1.5, 3.0, 10.0][i % 5], "nsleeps": 1 + i % 3})
+    # a second dilated wormhole pair in the same process (two transfers at once) whose connection keeps breaking:
+    # the pair under test is healthy and answers every ping, and must be left alone
+    for i in range(30 if tier == "quick" else 800):
+        out.append({"seed": seed * 1000003 + 1680000 + i, "kind": "responsive", "neighbour": True})
     return out
 
 
@@ -147,8 +151,12 @@ def run_case(spec):
     seen_pings = [0]
     paused_pings = [0]
 
+    own = []
+
     def hook():
-        n = len([1 for e in _events if e[2] == "ping"])
+        if not own:
+            own.extend([dp.manager("A"), dp.manager("B")])
+        n = len([1 for e in _events if e[2] == "ping" and any(e[1] is m_ for m_ in own)])
         if n > seen_pings[0]:
             seen_pings[0] = n
             m = _events[-1][1]
@@ -188,11 +196,25 @@ def run_case(spec):
         # the injected latency stays well below the interval: the peer remains responsive by construction
         lat["mode"] = "fixed"
         lat["d"] = rng.choice([0.0, 0.1, 0.4]) * x
-    sch.run(3000, until=dp.both_connected)
+    dp2 = None
+    nb = {"cuts": 0}
+    if spec.get("neighbour"):
+        dp2 = DilatedPair(world, ping_interval=x, code="77-neigh-bour")
+    sch.run(3000 if dp2 is None else 8000, until=lambda: dp.both_connected() and (dp2 is None or dp2.both_connected()))
     if not dp.both_connected():
         world.finish()
         _world[0] = None
         return {"inconclusive": "dilation did not connect", "violations": []}
+    if dp2 is not None:
+        def flap():
+            if nb.get("off"):
+                return
+            l2_ = dp2.selected_link()
+            if l2_ is not None:
+                r.cut(l2_)
+                nb["cuts"] += 1
+            r.callLater(rng.choice([0.3, 0.7, 1.1, 2.3]) * x * (0.5 + rng.random()), flap)
+        r.callLater(rng.random() * x, flap)
     lead = dp.leader()
     fol = "B" if lead == "A" else "A"
     lm, fm = dp.manager(lead), dp.manager(fol)
@@ -442,6 +464,10 @@ def run_case(spec):
         if kind == "responsive" and len(pongs) < 2 and (t_end - t_conn) > 4 * x:
             viol.append({"key": "C16/no-pings-on-responsive-link", "msg": "%d pongs in %.1f intervals" % (len(pongs), (t_end - t_conn) / x), "witness": wit()})
     quota["on"] = False
+    nb["off"] = True
+    if dp2 is not None:
+        dp2.a.close()
+        dp2.b.close()
     if bulk is not None:
         bulk.stopProducing()
     if kind != "close":
@@ -466,6 +492,7 @@ def run_case(spec):
                          "leader_app_paused_cases": int(paused_app is not None), "suspensions": suspended[0],
                          "stops_with_lingering_connection": int(spec["kind"] == "close-lingering" and bool(lingering.get("unsent")) and lingering.get("state_after") == "STOPPING"),
                          "bulk_cases": int(bulk is not None), "bulk_bytes_written": bulk.written if bulk else 0,
-                         "pings_sent_while_outbound_paused": paused_pings[0]},
+                         "pings_sent_while_outbound_paused": paused_pings[0],
+                         "neighbour_connection_losses": nb["cuts"]},
             "sample": {"spec": spec, "x": x, "leader": lead, "pongs": len(pongs), "drops": [round(t, 3) for t in drops], "t0": t0,
                        "latencies": lat_log[:6], "leader_events": [(round(t, 2), w) for (t, w, e) in ev_l][:14]}}
